@@ -20,6 +20,7 @@ FIXED = [
  (["C13"], "fix: string() renders map", "render-depends-on-map-seed", "string([\"a\":1,\"b\":2,\"c\":3]) followed Go map iteration order"),
  (["C02"], "fix: negative list indices", "internal-fault", "get([1,2],-1,0) and [1,2][-1] (also NaN / huge indices) died with a Go runtime index panic"),
  (["C03"], "fix: the VM builds map literals", "backend-value-mismatch", "[\"a\":1,\"a\":2] gave [\"a\":1] on the VM and [\"a\":2] on closure / interp"),
+ (["C03", "C02"], "fix: the VM calls lazy function values", "worker-crash", "if(c, lz, lz)(tr(1,1), tr(2,2)) with a lazy function value lz: the VM passed evaluated arguments to the lazy function and the process died with SIGSEGV; closure / interp evaluate it"),
  (["C08"], "fix: a non-associative operator", "accepts-nonassoc-chain", "`a < b < c && d` and `a < b < c ? d : e` were accepted"),
  (["C08"], "fix: right-associative operators", "tree-mismatch", "with ** (7.5, right) and ++ (7, left), `a ** b ++ c` parsed as a ** (b ++ c) (bp - 1 assumed whole-number powers)"),
  (["C12"], "fix: a compiled expression reports", "api-panic", "run-time failures ([1,2][5], 5 % 0, match(\"(\", s)) escaped Eval / Callable as panics"),
